@@ -1111,6 +1111,18 @@ class Segment:
             elif kind == "R":
                 rcls = self.cls(READERS, sub["fmt"])
                 slot["model"] = rcls(self.abspath(sub["path"])).transform()
+            elif kind == "A":
+                from flamapy.metamodels.fm_metamodel.models import Domain, Range
+                gmod = importlib.import_module(
+                    "flamapy.metamodels.fm_metamodel.operations.fm_generate_random_attribute")
+                gen = gmod.GenerateRandomAttribute()
+                gen.set_name(sub["attr"])
+                gen.set_only_leaf_features(bool(sub.get("only_leaf")))
+                dom = sub.get("domain")
+                if dom is not None:
+                    gen.set_domain(Domain([Range(r[0], r[1]) for r in dom.get("ranges", [])],
+                                          list(dom.get("elems", []))))
+                gen.execute(slot["priv"])
             else:
                 entry = self.models[sub["m"]]
                 mod = importlib.import_module("flamapy.metamodels.fm_metamodel.operations")
@@ -1130,6 +1142,8 @@ class Segment:
         out = {"o": slot.get("o", "not run")}
         if out["o"] != "ok":
             out["exc"] = slot.get("exc")
+            if sub["k"] == "A" and "priv" in slot:
+                out["model"] = sha(rm.cj(rm.flat(self.bridge.observe(slot["priv"]))))
             return out
         try:
             if sub["k"] == "W":
@@ -1137,6 +1151,8 @@ class Segment:
                 out["ret"] = sha(ret if isinstance(ret, (str, bytes)) else repr(ret))
                 data = self.read_bytes(sub["path"])
                 out["file"] = None if data is None else sha(data)
+            elif sub["k"] == "A":
+                out["model"] = sha(rm.cj(rm.flat(self.bridge.observe(slot["priv"]))))
             elif sub["k"] == "R":
                 out["model"] = sha(rm.cj(rm.flat(self.bridge.observe(slot["model"]))))
                 out["wf"] = sorted(str(b)[:80] for b in self.bridge.wellformed(slot["model"]))[:3]
@@ -1170,19 +1186,24 @@ class Segment:
         pkg = os.path.dirname(os.path.dirname(sys.modules[
             "flamapy.metamodels.fm_metamodel.models"].__file__))
 
+        def private(sub):
+            # GenerateRandomAttribute changes its model: each call gets a model of its own,
+            # built afresh for the sequential and for the interleaved execution
+            return {"priv": self.bridge.build(sub["ref"], "td")} if sub["k"] == "A" else {}
+
         def sequential():
             got = []
             for lane in lanes:
                 row = []
                 for sub in lane:
-                    slot = {}
+                    slot = private(sub)
                     self.conc_subop(sub, slot)
                     row.append(self.conc_eval(sub, slot))
                 got.append(row)
             return got
 
         def concurrent():
-            slots = [[{} for _ in lane] for lane in lanes]
+            slots = [[private(sub) for sub in lane] for lane in lanes]
 
             def body(idx):
                 def run():
@@ -1197,14 +1218,33 @@ class Segment:
                    for lane, row in zip(lanes, slots)]
             return sch, finished, got
 
+        restore = []
+        if any(sub["k"] == "A" for lane in lanes for sub in lane):
+            # the generator draws through the simulator's RNG in a mode whose picks do not depend
+            # on the order of the calls (always the low end / always the high end)
+            import random as _random
+            gmod = importlib.import_module(
+                "flamapy.metamodels.fm_metamodel.operations.fm_generate_random_attribute")
+            simrandom = SimRandom(op.get("rng_mode", "low"), 0)
+            if hasattr(gmod, "random"):
+                restore.append(("random", gmod.random))
+                gmod.random = simrandom
+            for fname in ("choice", "randint", "uniform", "randrange", "sample"):
+                if hasattr(gmod, fname) and getattr(gmod, fname) is getattr(_random, fname, None):
+                    restore.append((fname, getattr(gmod, fname)))
+                    setattr(gmod, fname, getattr(simrandom, fname))
         self.disk.begin_op(None)
-        if op.get("order", "seq_first") == "seq_first":
-            seq = sequential()
-            sch, finished, conc = concurrent()
-        else:
-            sch, finished, conc = concurrent()
-            seq = sequential()
-        self.disk.end_op()
+        try:
+            if op.get("order", "seq_first") == "seq_first":
+                seq = sequential()
+                sch, finished, conc = concurrent()
+            else:
+                sch, finished, conc = concurrent()
+                seq = sequential()
+        finally:
+            self.disk.end_op()
+            for fname, fn in restore:
+                setattr(gmod, fname, fn)
         self.probe("conc_ops")
         self.probe("conc_lane_calls", sum(len(lane) for lane in lanes))
         self.probe("conc_steps", sch.steps)
@@ -1250,6 +1290,10 @@ class Segment:
                     if a.get("o") == "ok" and b.get("o") == "ok" and not a.get("wf") and \
                             b.get("wf"):
                         props.append("C02")
+                elif kind == "A":
+                    props = ["C19"]
+                    site = "GenerateRandomAttribute.execute"
+                    check = "conc.result_differs"
                 else:
                     props = ["C19"] + (["C17"] if fmt == "FMMetrics" else [])
                     site = fmt + ".execute"
